@@ -313,7 +313,7 @@ Definition opt_bytes_is (o : option bytes) (x : bytes) : bool :=
      arrays holding a signalling NaN (the marshaler quiets it);
    - a nil slice / map whose element / key builder does not answer Null; a pointer to a value
      written as Null (nil slice, nil map, nil pointer, zero compact time); a pointer to a slice,
-     map, or to a pointer to a container; a pointer to Media;
+     map, or to a pointer to a container;
    - Edge (no end-container event), and everything held by an interface (Node included): the
      untyped builder gives other Go types back (covered by the correspondence only);
    - big.Float (library conversions);
@@ -345,7 +345,7 @@ Fixpoint sup (t : gtype) (v : gval) {struct v} : bool :=
   | VNilPtr => true
   | VPtr _ p =>
       match t with
-      | TPtr e => negb (null_like p) && negb (media_like p)
+      | TPtr e => negb (null_like p)
                   && (if container_like p then addressable e else true) && sup e p
       | _ => false
       end
@@ -1161,15 +1161,14 @@ Lemma bevs_optr p : bevs (VOPtr p) = bevs p. Proof. reflexivity. Qed.
 Lemma SL_ptr e v p :
   bevs v = bevs p -> null_like v = null_like p -> media_like v = media_like p ->
   (forall q, veq p q = veq v (mk_ptr e q)) ->
-  null_like p = false -> media_like p = false -> SL e p -> SL (TPtr e) v.
+  null_like p = false -> SL e p -> SL (TPtr e) v.
 Proof.
-  intros Hb Hn Hm Hveq Hnl Hml (s & v' & Hsl & Hc & Hv & Hnull & Hmedia).
+  intros Hb Hn Hm Hveq Hnl (s & v' & Hsl & Hc & Hv & Hnull & Hmedia).
   exists s, (mk_ptr e v').
   split; [intro st; rewrite Hb; apply Hsl|].
   split.
   { assert (s <> BNull) by (intro E; apply Hnull in E; congruence).
-    assert (forall mt d, s <> BMedia mt d) by (intros mt d E; assert (media_like p = true) by (apply Hmedia; eauto); congruence).
-    cbn [conv]. destruct s; try contradiction; try (rewrite Hc; reflexivity). exfalso. eapply H0. reflexivity. }
+    cbn [conv]. destruct s; try contradiction; rewrite Hc; reflexivity. }
   split; [rewrite <- Hveq; exact Hv|].
   rewrite Hn, Hm. split; assumption.
 Qed.
@@ -1889,10 +1888,10 @@ Proof.
   - (* pointers *)
     intros a p IHp t Ht Hs. destruct t; try discriminate Ht.
     cbn [has_type] in Ht. cbn [sup] in Hs. split_and Ht. split_and Hs.
-    apply negb_true_iff in Ht, Hs, Hs2.
+    apply negb_true_iff in Ht, Hs.
     destruct (IHp t Ht0 Hs0) as [[Hc Hsl]|[Hc Hcl]].
     + left. split; [exact Hc|].
-      apply (SL_ptr t (VPtr a p) p); [reflexivity | reflexivity | reflexivity | | assumption | assumption | assumption].
+      apply (SL_ptr t (VPtr a p) p); [reflexivity | reflexivity | reflexivity | | assumption | assumption].
       intro q. unfold mk_ptr. rewrite Ht. reflexivity.
     + right. split; [exact Hc|]. rewrite Hc in Hs1. apply CL_ptr; assumption.
   - (* nil pointer *)
@@ -1911,7 +1910,7 @@ Proof.
       assert (Ht' : t = TTime \/ t = TCTime) by (destruct t; try discriminate Ho; auto).
       destruct (Hnc t Ht) as [Hc Hm]; [destruct Ht' as [E|E]; subst t; auto|].
       destruct (IHp t Ht Hs) as [[_ Hsl]|[Hc' _]]; [|congruence].
-      apply (SL_ptr t (VOPtr p) p); [reflexivity | reflexivity | | | assumption | assumption | assumption].
+      apply (SL_ptr t (VOPtr p) p); [reflexivity | reflexivity | | | assumption | assumption].
       * cbn [media_like]. symmetry. exact Hm.
       * intro q. unfold mk_ptr. rewrite Ho. reflexivity.
     + destruct (Hnc TUrl Ht) as [Hc Hm]; [auto|].
@@ -2021,7 +2020,11 @@ Lemma bool_slice_fails : fails (fst w_bool_slice) (snd w_bool_slice). Proof. ref
 Lemma named_elem_slice_fails : fails (fst w_named_elem_slice) (snd w_named_elem_slice). Proof. refute. Qed.
 Lemma ptr_slice_fails : fails (fst w_ptr_slice) (snd w_ptr_slice). Proof. refute. Qed.
 Lemma ptr_map_fails : fails (fst w_ptr_map) (snd w_ptr_map). Proof. refute. Qed.
-Lemma ptr_media_fails : fails (fst w_ptr_media) (snd w_ptr_media). Proof. refute. Qed.
+(* repaired by /repo commit bfbf710: the pointer to Media comes back *)
+Lemma ptr_media_roundtrip : forall lt, has_type (fst w_ptr_media) (snd w_ptr_media) = true /\ roundtrip_ok lt (fst w_ptr_media) (snd w_ptr_media).
+Proof.
+  intro lt. split; [vm_compute; reflexivity|]. eexists. split; [vm_compute; reflexivity | vm_compute; reflexivity].
+Qed.
 Lemma ptr_ptr_struct_fails : fails (fst w_ptr_ptr_struct) (snd w_ptr_ptr_struct). Proof. refute. Qed.
 Lemma ptr_nil_ptr_fails : fails (fst w_ptr_nil_ptr) (snd w_ptr_nil_ptr). Proof. refute. Qed.
 Lemma ptr_nil_slice_fails : fails (fst w_ptr_nil_slice) (snd w_ptr_nil_slice). Proof. refute. Qed.
@@ -2069,6 +2072,12 @@ Definition ex_value : gval :=
      (mkf [72] OZero, VUint 0)].
 
 Definition idlib (b : bytes) : option bytes := Some b.
+
+(* a pointer to Media lies in the fragment (since /repo commit bfbf710) *)
+Lemma ptr_media_supported :
+  has_type (fst w_ptr_media) (snd w_ptr_media) = true /\
+  sup idlib idlib default_bcfg icfg0 (fst w_ptr_media) (snd w_ptr_media) = true.
+Proof. split; vm_compute; reflexivity. Qed.
 
 Lemma ex_typed : has_type ex_type ex_value = true. Proof. vm_compute. reflexivity. Qed.
 Lemma ex_supported : sup idlib idlib default_bcfg icfg0 ex_type ex_value = true. Proof. vm_compute. reflexivity. Qed.
